@@ -454,10 +454,20 @@ func readInt(n int, b []byte) ([]byte, uint64, error) {
 		if shift := (i - 1) * 7; shift >= 64 {
 			return b, 0, ErrIntOverflow
 		} else {
-			nn |= uint64(b[i]&127) << shift
+			d := uint64(b[i] & 127)
+			if d<<shift>>shift != d {
+				// the septet has bits that fall off the top of a uint64
+				return b, 0, ErrIntOverflow
+			}
+
+			nn |= d << shift
 		}
 
 		if b[i]&128 != 128 {
+			if nn > ^uint64(0)-uint64(b0) {
+				return b, 0, ErrIntOverflow
+			}
+
 			return b[i+1:], nn + uint64(b0), nil
 		}
 	}
